@@ -493,18 +493,22 @@ func coordinate() int {
 
 	// evidence
 	cov := map[string]interface{}{
-		"evaluations":         agg.Evaluations,
-		"distinct_nontrivial": agg.Distinct(),
-		"rule":                c.Rule,
-		"samples":             agg.Samples,
+		"evaluations":             agg.Evaluations,
+		"distinct_nontrivial":     agg.Distinct(),
+		"rule":                    c.Rule,
+		"samples":                 agg.Samples,
 		"executions_of_real_code": agg.Execs,
-		"events_observed":     agg.Events,
-		"cells":               agg.Cells,
-		"counters":            agg.Counters,
-		"inconclusive":        len(agg.Inconclusive),
-		"inconclusive_detail": truncList(agg.Inconclusive, 10),
-		"workers":             nw,
-		"cases_planned":       total,
+		"events_observed":         agg.Events,
+		"cells":                   agg.Cells,
+		"counters":                agg.Counters,
+		"inconclusive":            len(agg.Inconclusive),
+		"inconclusive_detail":     truncList(agg.Inconclusive, 10),
+		"workers":                 nw,
+		"cases_planned":           total,
+	}
+	if c.ExhaustivePart != "" {
+		cov["exhaustive_part"] = c.ExhaustivePart
+		cov["exhaustive"] = false // the run as a whole also samples beyond the enumerated part
 	}
 	if agg.DistinctExtra() > 0 {
 		cov["distinct_interleavings_or_states"] = agg.DistinctExtra()
